@@ -653,6 +653,7 @@ func (w *asWorld) exec(line string) string {
 					crashed = true
 				}
 			}()
+			w.node.VerifClearLastError()
 			if ws[0][0] == 'e' {
 				w.epoch.ch <- aggsendertypes.EpochEvent{Epoch: 1}
 				w.node.VerifLoopOnce(ctx, false)
